@@ -74,3 +74,7 @@ add("C11","exploration",
     "Held on every hostile case produced (1440 quick / 24000 thorough): 7 protocol states x 50 mutations of startup packets, frames, bodies and message order; after each case pgcat is alive, a canary on the shared pool_size=1 pool gets its own correct reply on a clean session, a canary on a second pool is served while the attacker is still connected, capacity and admin console are intact.",
     "Trusted: canary/probe oracles reuse C02's cleanliness and C04's capacity probe; declared lengths above 64 MiB are outside the verdict (RSS is reported); sender-confined panics are allowed by the property and only catalogued. ASan/Miri legs for the decoders are not built (see DESIGN).",
     "runtime monitoring: hostile-input injection with liveness + canary + capacity oracles", "DESIGN.md 5 C11")
+add("C08","exploration",
+    "Held, apart from one listed known finding (cache size 1 with two Parses in one batch), on every Execute produced (about 12000 per quick run): the text and parameter types the mock actually ran (resolved through its own statement/portal tables) equal what the same client most recently prepared under that name, across server connections, cache sizes 1-500, shared names between clients, near-colliding statement encodings, Close+Parse in one batch, Describe and Close; one server-side name never stands for two statements.",
+    "Trusted: mock's statement/portal tables; per-client direct-connection model; re-Parse without Close is don't-care; 64-bit hash collisions of the cache key are not explored. ASan/Miri legs on codecs not built.",
+    "runtime monitoring: per-client reference model vs statement text executed at the mock backend", "DESIGN.md 5 C08")
